@@ -25,6 +25,18 @@ from variants import VARIANTS  # noqa: E402
 
 
 def apply_variant(v, root):
+    for (old, new) in v.get("sed", []):
+        n = 0
+        for dp, _dn, fns in os.walk(os.path.join(root, "src", "smoothmath")):
+            for fn in fns:
+                if fn.endswith(".py"):
+                    p = os.path.join(dp, fn)
+                    s = open(p).read()
+                    if old in s:
+                        n += s.count(old)
+                        open(p, "w").write(s.replace(old, new))
+        if n == 0:
+            raise RuntimeError(f"{v['id']}: sed pattern {old!r} occurs nowhere")
     for (file, old, new) in v["edits"]:
         p = os.path.join(root, "src", "smoothmath", file)
         s = open(p).read()
